@@ -170,6 +170,8 @@ def registrations(func, prog):
             else:
                 cb = kwarg(c, "callback", 0)
                 eb = kwarg(c, "errback", 1)
+            if kind == "cbs" and cb is not None and eb is not None and unparse(cb) == unparse(eb):
+                kind = "both"  # addCallbacks(h, h) is addBoth(h)
             regs.append({"root": unparse(root), "root_node": root, "kind": kind, "cb": cb, "eb": eb, "call": c,
                          "lineno": c.lineno})
     regs.sort(key=lambda r: (r["call"].end_lineno, r["call"].end_col_offset))
@@ -371,3 +373,26 @@ def real_suspension(prog, func):
                 return True
         return False
     return pred
+
+
+def evaluated_unconditionally(stmt, target):
+    """Is expression `target` evaluated whenever statement `stmt` runs (not
+    under an IfExp arm, a short-circuit operand, a lambda or a comprehension)?"""
+    def rec(node, cond):
+        if node is target:
+            return not cond
+        res = None
+        if isinstance(node, ast.IfExp):
+            kids = [(node.test, cond), (node.body, True), (node.orelse, True)]
+        elif isinstance(node, ast.BoolOp):
+            kids = [(node.values[0], cond)] + [(v, True) for v in node.values[1:]]
+        elif isinstance(node, (ast.Lambda, ast.ListComp, ast.SetComp, ast.DictComp, ast.GeneratorExp)):
+            kids = [(k, True) for k in ast.iter_child_nodes(node)]
+        else:
+            kids = [(k, cond) for k in ast.iter_child_nodes(node)]
+        for k, c in kids:
+            v = rec(k, c)
+            if v is not None:
+                res = v
+        return res
+    return bool(rec(stmt, False))
